@@ -334,6 +334,7 @@ type VP func(ssa.Value) bool
 
 func stripConv(v ssa.Value) ssa.Value {
 	for {
+		v = deparam(v)
 		switch x := v.(type) {
 		case *ssa.ChangeType:
 			v = x.X
@@ -433,7 +434,14 @@ func LenOf(p VP) VP {
 func Param(name string) VP {
 	return func(v ssa.Value) bool {
 		p, ok := v.(*ssa.Parameter)
-		return ok && p.Name() == name
+		if !ok {
+			return false
+		}
+		// inside a helper whose outcome is being expanded, a parameter stands for the caller's argument
+		if s, has := exprParamSubst[p]; has {
+			return s == name
+		}
+		return p.Name() == name
 	}
 }
 
